@@ -75,6 +75,8 @@ prop("C17", [
     dict(engine="verus", unit="raser", fns=["serialise_router_advertisement", "clamp_u16", "clamp_u32", "prefix_mask", "pref64_plc", "pref64_prefixlen",
                                              "Serialise::serialise", "Serialise::len"]),
     dict(engine="kani", sets=["radv_ser"]),
+    # the variable-length option arms on the real encoder, body-independent (CBMC cannot take the function)
+    dict(engine="sql", module="radv", domain="captive-portal URLs of every length 0..=2050; 510 DNS search lists (1..3 names of 1..3 labels of 1/7/63 octets); 0..=130 recursive DNS servers"),
     # what goes into the advertisement: tri-state defaults, $self6, prefixes, header fields; discharges the serialiser's precondition
     dict(engine="verus", unit="rabuild", fns=["RaAdvService::build_announcement_pure", "NDOptions::add_option"]),
     # "null suppressing an option" at the loader: tri-state keys of an interface (R9 slices of parse_interface arms)
@@ -117,6 +119,8 @@ prop("C02", [
     dict(engine="verus", unit="policy", fns=["check_policy", "check_policies", "apply_policy", "apply_policies"]),
     dict(engine="kani", sets=["net_subnet"]),
     dict(POOL_B, checks=["allocate_address/C02"]),
+    # the glue the range slices assume: a policy's address set is the union of all its address keys, in any order, minus sub-policy reservations
+    dict(engine="sql", module="dhcpcfg", domain="every non-empty subset of {apply-address, apply-range, apply-subnet} in every key order, with and without a reserving sub-policy (30 fragments); 3 range end cases"),
 ], explanation="pool membership before every grant (allocate_address ensures; handle_discover/handle_request: yiaddr lies in the set the policies selected), which policy's set is selected (first applicable sibling: unit policy), apply-subnet expansion == every host address, default addresses pool == hosts minus server minus used",
     assumptions=["apply-range: the RangeInclusive for-loop is verified in the loop form of rule R21 (this vstd has no ghost iterator for RangeInclusive)", "YAML text -> values (yaml-rust) not under contract",
                  "the address arithmetic base == network() and get_or_insert_with glue around the slices is assumed (slice preconditions)"])
